@@ -58,6 +58,7 @@ TENTH = Fraction(1, 10)
 TIME_F = {"s": Fraction(1), "min": Fraction(60), "h": Fraction(3600)}
 VOL_F = {"L": Fraction(1), "mL": Fraction(1, 1000)}
 MECH_STALE = "C03.stale_block_tag_selects_block_clock"
+MECH_ENDED = "C03.block_tag_names_ended_block"
 
 MON: list = [None]
 _installed = [False]
@@ -179,6 +180,10 @@ class Monitor:
         name it had when the previous run was stopped/restarted, so the interpreter reads the block clock."""
         if c["kind"] == "stale" and self.run_starts >= 2 and c["block_tag"] == self.block_tag_at_run_start:
             return MECH_STALE
+        if c["kind"] == "stale" and c["tag_names_ended_block"]:
+            # second shape: within one run the Block tag was set (by an `End block` that ran after its block had already
+            # been ended) to the name of a block of this run that has ended; no block is active
+            return MECH_ENDED
         return None
 
     # ---- which clock does the statement designate for this line, now?
@@ -197,6 +202,8 @@ class Monitor:
         active = [n for n in interp._program.get_all_nodes()
                   if isinstance(n, p.BlockNode) and n.lock_acquired and not n.block_ended]
         names = {b.name for b in active}
+        ended_names = {n.name for n in interp._program.get_all_nodes()
+                       if isinstance(n, p.BlockNode) and (n.block_ended or n.completed)}
         if lex is None:
             if block_tag in (None, ""):
                 kind, tag = "scope", tags[vt_name]
@@ -225,7 +232,7 @@ class Monitor:
         except Exception:
             return None, "non_numeric_clock"
         return {"kind": kind, "clock": clock, "T": thr, "base": base, "tag": tag.name, "raw": tag.get_value(),
-                "block_tag": block_tag}, None
+                "block_tag": block_tag, "tag_names_ended_block": block_tag in ended_names}, None
 
     def _count_ctx(self, c):
         res = self.res
